@@ -58,6 +58,13 @@ theorem C11_result_alone (calls : Nat → Call σ ρ) (hd : ∀ k, Disciplined k
   have h := C11_interleaving_equiv calls hd h0 sched i
   exact ⟨h.2.2.1.mp hfin, h.2.2.2⟩
 
+/-- F6: every store site extracted from the sources is classified, in order, under exactly its
+    key, and none is classified `schema`.  A new, vanished or reshaped store breaks this. -/
+theorem gen_stores_accounted : storesMatch Gql.Gen.stores accountedStores = true := by decide +kernel
+
+theorem gen_stores_placement : accountedStores.all classPlacementOK = true := by decide +kernel
+
+
 /-- The static tie: every store site of the anchored files is classified and none writes a loaded
     schema; mapped into the model, a site run by call `i` writes a location call `i` owns (or is a
     `registry` site, which no operation of the property executes). -/
